@@ -35,6 +35,7 @@ PATTERNS = [
     ("n", "class", {}), ("for", "a", {}), ("n", "a-b", {}), ("n", "x/y", {}), ("N", "A", {}),
     ("n", "a", {"literal": True}), ("n", "a", {"unknown_field": True}), ("n", "a", {"unknown_nest": True}),
     ("n", "a", {"base_same_as_field": True}), ("n", "n", {}),
+    ("n", "a.b", {"sibling": "b"}), ("my n", "x.y", {"sibling": "y"}),      # a field name holding a dot next to a field named like its last part
 ]
 SPELLINGS = ["plain", "bt_both", "bt_field", "bt_nest", "bt_whole"]
 
@@ -52,6 +53,8 @@ def build(nest, field, opts):
     n = 3
     nf = NestedFrame({"x": [0, 1, 2], "a": [100, 2, 300]}, index=[10, 11, 12])
     fields = {field: [[3, None, 1], [5, 4], [2]], "other": [[30, 10, 20], [50, 40], [60]]}
+    if opts.get("sibling"):
+        fields[opts["sibling"]] = [[31, 11, 21], [51, 41], [61]]
     if opts.get("unknown_field"):
         fields = {"zz": fields[field], "other": fields["other"]}
     st = pa.struct([pa.field(k, pa.list_(pa.int64())) for k in fields])
@@ -261,7 +264,11 @@ def generate(ctx):
         else:
             want = None
         ot = cq_target(obs, op)
-        if want is None:
+        if want is not None and "." in field and how in ("plain", "bt_nest"):
+            # the dot of the field name is not protected by backticks: the field (pandas' own reading of the dotted text) or an error,
+            # never another target
+            spec_ok = tuple(obs[:3]) == tuple(want[:3]) or obs[0] == "raise"
+        elif want is None:
             if op == "setitem":
                 spec_ok = obs[0] in ("newnest", "newfield", "newcol", "raise")     # assignment may create; it must not hit another existing target
             else:
